@@ -81,7 +81,7 @@ def processing_clause(cl, rng, n, replay):
             cl.fail("hvsrpy.processing.azimuthal_hvsr_processing", "azimuthal result is not the stack of the single-azimuth results", signature="proc:azimuthal", azimuths=azs)
             return
         prev = None
-        for p in (0., 25., 50., 80., 100.):
+        for p in (0., 0.5, 1., 2.5, 25., 50., 80., 99., 100.):        # a percentile is a number between 0 and 100: small values are percentiles too, not fractions
             r = hvsrpy.process([mk()], hvsrpy.HvsrTraditionalRotDppProcessingSettings(smoothing=SM, azimuths_in_degrees=azs, window_type_and_width=list(taper),
                                                                                        ppth_percentile_for_rotdpp_computation=p)).amplitude[0]
             lo, hi = stack.min(axis=0), stack.max(axis=0)
